@@ -16,7 +16,8 @@ TRUSTED_BASE = [
     "Model/*.v hand-written; byte-identical CSV on every run",
 ]
 ASSUMPTIONS = ["accounts with ambiguous last segments inside the A/L section are skipped by the spec verdict",
-               "the truncation allowance n_steps is an upper bound (bookings on the account in the window + days x held commodities + 1)"]
+               "the truncation allowance n_steps is an upper bound (bookings on the account in the window + days x held commodities + 1); "
+               "that the model's row stays within it is proved (C03_model_meets_spec)"]
 TECHNIQUE = ("Coq: Abel-summation and truncation lemmas about an executable model of Valuate/ComputePrices; closed-form mark-to-market "
              "specification evaluated on the binary's CSV; byte-exact model/implementation correspondence")
 LEVEL_TEXT = ("Proved (Coq, closed under the global context): (1) end to end over days, for the Valuate stage from its initial state over any "
@@ -33,12 +34,25 @@ LEVEL_TEXT = ("Proved (Coq, closed under the global context): (1) end to end ove
               "Spec.ValuationSpec.qty_upto / price_on on the directives (stable sort of the declarations by date = order of the builder's "
               "days), exact for the valuation commodity itself, against Spec.ValuationSpec.mtm_expected for the whole row, n_steps a closed "
               "form of the input (bookings + journal days in the window per commodity); corollary C03_mark_to_market_report for windows that "
-              "cover the position.")
+              "cover the position. (3) The verdict of this check holds of the model (C03_model_meets_spec): for every configuration with a "
+              "valuation commodity and every journal on which balance_report succeeds, every asset/liability account shown as itself and "
+              "every column, Spec.ValuationSpec.mtm_row exists with one entry per column and the model's row is within step_bound * 1e-8 of "
+              "mtm_expected, hence within_bound (the boolean the driver evaluates; C03_within_bound_value: it is the inequality between the "
+              "rational values) accepts every decimal carrying the row's value.  Behind it C03_windowed_tight with the count bookings of the "
+              "cell in the window + dates of the journal in the window per commodity other than V: Valuate books no revaluation when no price "
+              "moved (C03_no_revaluation_without_price_change), ComputePrices carries prices over days without declarations, and the days "
+              "--close touches at the period starts carry nothing, so --close adds no step; C03_step_bound_suffices: that count over the held "
+              "commodities <= step_bound. (4) Rows aggregated by --mapping / swapped by --remap (C03_windowed_mapped, no shows_account "
+              "condition): a row b of asset/liability type shows the sum over the accounts of the journal that land on it (remap, then the "
+              "first matching mapping rule; pass --account) of their mark-to-market changes, up to the sum of their step counts; the list "
+              "of these accounts is executable (sources_of, C03_sources_of); remap and shorten keep an account valid and in its class "
+              "(C03_lands_class), so CloseAccounts and the Income mirrors never reach such a row.")
 LEVEL_NOTE = ("Trusted: kernel, extraction, harness, hand-written model (sampled tie). Side conditions of the report theorems: posting accounts "
               "syntactically valid (postings_syntactic, the parser's guarantee as in C02/C04/C05), the account is shown as itself (no "
               "--mapping/--remap rule moves it or another account onto it) and passes the filters, non-empty window, column = a period end. Not proved (decided per "
-              "run by the closed form on the binary's cells): the printed, collapsed row text; rows aggregated by --mapping/--remap; the "
-              "tighter step count step_bound (row_steps counts every journal day in the window, also with --close the period starts).")
+              "run by the closed form on the binary's cells): the printed, collapsed row text (row_value is the sum of the tree's cells over "
+              "the held commodities); that mtm_expected is Some whenever the run succeeds.  The generator of this check uses no --mapping/--remap: "
+              "the theorem on aggregated rows (C03_windowed_mapped) is not yet evaluated on the binary's rows by the spec verdict.")
 
 def plan(tier, seed):
     if tier == "quick":
